@@ -232,10 +232,29 @@ def check_rotation_skips(p, res, rule, prefixes):
                     kinds.add("2n")
                 else:
                     kinds.add("n")
+            elif a[0] == "f" and a[1] in ("Rem", "rem_euclid", "wrapping_rem_euclid") and len(a[2]) == 2:
+                kinds.add("2n" if twice(a[2][1]) else "n")
             elif a[0] == "p":
                 kinds.add("raw")
             else:
                 kinds.add("other")
+        return kinds
+
+    def twice(key):
+        return mask2n(key) or any(isinstance(x, tuple) and len(x) > 1 and x[0] == "f" and x[1] == "Shl" for mono, c in key for x in (mono or ()))
+
+    def call_residue(f, sym, poly, pidx):
+        """the exponent reduced by a call: `k.rem_euclid(m)` - modulo 2N when m is twice something, modulo N otherwise"""
+        kinds = set()
+        for a in poly.atoms():
+            if a[0] != "call" or a[1] != f.uid:
+                continue
+            t = f.blocks[a[2]]["t"]
+            if (f.callee_def(t) or {}).get("n") not in ("rem_euclid", "wrapping_rem_euclid", "rem", "checked_rem_euclid") or len(t["a"]) != 2:
+                continue
+            x, m = sym.operand(t["a"][0]), sym.operand(t["a"][1])
+            if any(mentions(b, pidx) for b in x.atoms()):
+                kinds.add("2n" if twice(m.key()) else "n")
         return kinds
 
     for f in sorted(p.lib_fns(), key=lambda x: x.uid):
@@ -272,6 +291,7 @@ def check_rotation_skips(p, res, rule, prefixes):
                     st = f.blocks[r[1]]["s"][r[2]][2]
                     for o in st["o"]:
                         kinds |= residue_kind(sym.operand(o), pidx)
+                        kinds |= call_residue(f, sym, sym.operand(o), pidx)
             if "n" in kinds and "2n" not in kinds:
                 bad = path
                 break
